@@ -105,6 +105,7 @@ package object
 
 // sortedKeys: the keys of the object, made canonical by sort.Strings
 //@ func (o *Obj) sortedKeys
-//@   ensures len(result) >= 0
+//@   ensures forall(j, 0, len(result), has(o.Pairs, result[j]))
 //@   modifies nothing
+//@   loop 0: invariant forall(j, 0, len(keys), has(o.Pairs, keys[j])) && fresh(keys) && len(keys) >= 0
 //@   loop 0: deterministic-by-contract
